@@ -105,8 +105,7 @@ type state struct {
 	ops []string
 	// containers left behind by Clone / CloneSeqBag / SubAlign / Unalign with the content they must keep
 	kept []keptContainer
-	// set when an empty alignment may remember a previous length (FilterLength,
-	// Deduplicate use the sequence-set Clear): under-documented corner, lenient
+	// never set any more (an empty alignment remembering a length is a violation since fix 175cbbc)
 	staleLen bool
 	hadRows  bool // the container held at least one row since its creation / last Clear
 }
@@ -239,6 +238,11 @@ func (s *state) observe(op string) bool {
 			}
 			return false
 		}
+		if first >= 0 {
+			// "lookup by name, lookup by index and iteration always agree on the same rows": with names repeated by
+			// the caller, every by-name accessor designates the row GetSequenceIdByName reports (the first one)
+			cands = cands[:1]
+		}
 		str, ok := sb.GetSequence(name)
 		if ok != (first >= 0) || (ok && !okSeq(str)) {
 			return bad("byname", "GetSequence(%q)=%q,%v; model rows with that name: %q", name, str, ok, cands)
@@ -268,11 +272,9 @@ func (s *state) observe(op string) bool {
 			return bad("length", "Length()=%d, rows have %d residues", L, len(exp[0].Seq))
 		}
 		if len(exp) == 0 && L != -1 {
-			if !s.hadRows {
-				// nothing ever gave this alignment a length: it must report "no length" (the next sequence decides)
-				return bad("length", "an alignment that never held a sequence reports Length()=%d instead of -1", L)
-			}
-			s.staleLen = true
+			// an alignment without rows has no length (the next sequence decides), whatever emptied it
+			// (Clear, a cleaner removing every row, FilterLength since fix 175cbbc) or if it never held a row
+			return bad("length", "an alignment without sequence reports Length()=%d instead of -1 (after %s)", L, op)
 		}
 	}
 	if len(exp) > 0 {
@@ -1555,6 +1557,15 @@ func runWitness(c *mon.Case) {
 		if pan || len(got) != 3 || got[0].Name != "a" || got[1].Name != "a" || got[2].Name != "b" || got[0].Seq == got[1].Seq {
 			c.Failf("Sort:dup-names", "Sort with two rows named a gave %s %s", h.Show(got), msg)
 		}
+	case 6:
+		a := mk("x", "ACGTA", "y", "ACGTC")
+		a.FilterLength(10, -1)
+		if a.NbSequences() != 0 || a.Length() != -1 {
+			c.Failf("FilterLength:length", "FilterLength(10,-1) of two rows of 5: %d rows, Length()=%d (an alignment without sequence has no length)", a.NbSequences(), a.Length())
+		}
+		if err := a.AddSequence("z", "ACG", ""); err != nil {
+			c.Failf("FilterLength:length", "alignment emptied by FilterLength refuses a sequence of another length: %v", err)
+		}
 	}
 	c.NonTrivial("witness", gen.Itoa(c.Idx))
 }
@@ -1575,7 +1586,7 @@ func main() {
 	mon.Floor("start:policy2", 50)
 	mon.Floor("rejected-insertions", 20)
 	mon.Main("C01", []mon.Sub{
-		{Name: "witness", Quick: 6, Thorough: 6, Run: runWitness},
+		{Name: "witness", Quick: 7, Thorough: 7, Run: runWitness},
 		{Name: "history", Quick: 40000, Thorough: 2000000, Run: func(c *mon.Case) { runHistory(c, nil) }},
 		// every renamer / re-orderer followed by by-name queries and Sort: the stale-index family
 		{Name: "rename-then-sort", Quick: 6000, Thorough: 200000, Run: func(c *mon.Case) {
